@@ -107,12 +107,21 @@ class Result:
         """signature: small dict of mechanism facts (never random values)."""
         self.violations.append({'signature': signature, 'detail': detail, 'replay': replay})
 
+    def capped_violations(self, per_sig=4, total=400):
+        seen, out = {}, []
+        for v in self.violations:
+            k = json.dumps(v['signature'], sort_keys=True)
+            seen[k] = seen.get(k, 0) + 1
+            if seen[k] <= per_sig and len(out) < total:
+                out.append(v)
+        return out
+
     def dump(self):
         return {
             'evaluations': self.evaluations,
             'distinct': sorted(self.distinct),
             'counters': self.counters,
-            'violations': self.violations[:200],
+            'violations': self.capped_violations(),
             'n_violations': len(self.violations),
             'samples': self.samples,
             'inconclusive': self.inconclusive,
